@@ -462,7 +462,11 @@ impl Gen {
                         let p = self.pred(w, 0);
                         (0, Op::FDrainFilter { p, fuse: self.rng.below(len as u64 + 2) as usize })
                     }
-                    10 => (0, Op::Remove { k: self.some_key(w, 0), variant: 0 }),
+                    10 => {
+                        if self.rng.chance(1, 2) { (0, Op::Remove { k: self.some_key(w, 0), variant: 0 }) } else {
+                            (0, Op::FEq { kind: self.rng.below(5) as u8, k: self.some_key(w, 0), v: 9, fuse: self.rng.below(3) as usize })
+                        }
+                    }
                     11 => (0, Op::Insert { k: self.some_key(w, 0), v: 2 }),
                     12 => (0, Op::Get { k: self.some_key(w, 0), variant: 0 }),
                     13 => {
